@@ -8,13 +8,41 @@ From I18n Require Import Lib.Outcome Lib.CFmtSyntax Generated.PyConsts Generated
   Proofs.FmtCScan Proofs.FmtCDir Proofs.FmtCArgs Proofs.FmtC Proofs.FmtCWarn.
 Import ListNotations.
 
-(* A string is accepted iff it decomposes into ordinary characters and well-formed conversion specifications
-   (decomp), each of them a valid_directive, whose argument references are consistent (args_ok: all unnumbered and
-   at most NL_ARGMAX of them, or all numbered without gaps and with one type per number; %% and %m exempt). *)
-Theorem C11_accept_iff : forall s,
-  (exists fs, fmtc_parse int_max_str_digits s = Ok fs) <-> printf_valid s.
-Proof. exact accept_iff. Qed.
-Print Assumptions C11_accept_iff.
+(* The property: a string is accepted iff it decomposes into ordinary characters and well-formed conversion
+   specifications (decomp), each of them a valid_directive, whose argument references are consistent (args_ok: all
+   unnumbered and at most NL_ARGMAX of them, or all numbered without gaps and with one type per number; %% and %m
+   exempt). *)
+Definition C11_accept_iff_statement : Prop :=
+  forall s, (exists fs, fmtc_parse int_max_str_digits s = Ok fs) <-> printf_valid s.
+
+(* It is FALSE for the code as it is (finding D15): "%#m" -- the alternate form of glibc's %m, defined since glibc 2.35
+   (printf(3): strerrorname_np(errno)) -- is rejected with FlagError. *)
+Theorem C11_accept_iff_refuted : ~ C11_accept_iff_statement.
+Proof. exact accept_iff_refuted. Qed.
+Print Assumptions C11_accept_iff_refuted.
+
+Theorem C11_D15_witness :
+  printf_valid (chars "%#m") /\ fmtc_parse int_max_str_digits (chars "%#m") = Err (EFlagError (chars "%#m") (ch "#")).
+Proof. exact (conj alt_m_witness_valid alt_m_witness_rejected). Qed.
+Print Assumptions C11_D15_witness.
+
+(* It holds for every string without that directive (no m conversion carrying the # flag) ... *)
+Theorem C11_accept_iff_outside_D15 : forall s,
+  (forall ds, decomp s ds -> Forall (fun d => no_alt_m d = true) ds) ->
+  ((exists fs, fmtc_parse int_max_str_digits s = Ok fs) <-> printf_valid s).
+Proof. exact accept_iff_outside_alt_m. Qed.
+Print Assumptions C11_accept_iff_outside_D15.
+
+(* ... the direction "accepted => valid" holds for all strings: undefined behaviour is never accepted ... *)
+Theorem C11_accept_sound : forall s fs, fmtc_parse int_max_str_digits s = Ok fs -> printf_valid s.
+Proof. exact accept_sound. Qed.
+Print Assumptions C11_accept_sound.
+
+(* ... and the accepted language is exactly: valid, and no directive is "%#m"-like *)
+Theorem C11_accept_iff_exact : forall s,
+  (exists fs, fmtc_parse int_max_str_digits s = Ok fs) <-> printf_valid_impl s.
+Proof. exact accept_iff_impl. Qed.
+Print Assumptions C11_accept_iff_exact.
 
 (* the decomposition is unique: "the directives of s" is well defined *)
 Theorem C11_directives_unique : forall s ds1 ds2, decomp s ds1 -> decomp s ds2 -> ds1 = ds2.
@@ -83,14 +111,26 @@ Proof. vm_compute. reflexivity. Qed.
 Example ex_signature :
   map ctype_name (signature (dirs (toks_of (chars "%2$s: %1$*3$.*4$lf %%")))) = [chars "double"; chars "const char *"; chars "int"; chars "int"].
 Proof. vm_compute. reflexivity. Qed.
+Lemma no_m_ok : forall s, good (toks_of s) = true -> forallb no_alt_m (dirs (toks_of s)) = true ->
+  forall ds, decomp s ds -> Forall (fun d => no_alt_m d = true) ds.
+Proof.
+  intros s G H ds Hd. rewrite (C11_directives_unique s ds (dirs (toks_of s)) Hd (tokens_sound _ s (le_n _) G)).
+  apply Forall_forall. apply forallb_forall. exact H.
+Qed.
 Example ex_valid : printf_valid (chars "%1$*2$d and %1$i").
-Proof. apply C11_accept_iff. eexists. vm_compute. reflexivity. Qed.
+Proof. apply C11_accept_iff_outside_D15; [apply no_m_ok; vm_compute; reflexivity|]. eexists. vm_compute. reflexivity. Qed.
 Example ex_mixture : ~ printf_valid (chars "%1$d %d").
-Proof. intros H. apply C11_accept_iff in H. destruct H as [fs H]. vm_compute in H. discriminate. Qed.
+Proof.
+  intros H. apply C11_accept_iff_outside_D15 in H; [|apply no_m_ok; vm_compute; reflexivity].
+  destruct H as [fs H]. vm_compute in H. discriminate.
+Qed.
 Example ex_gap : fmtc_parse int_max_str_digits (chars "%1$d%3$d") = Err (EMissingArgument (chars "%1$d%3$d") 2).
 Proof. vm_compute. reflexivity. Qed.
 Example ex_type_mismatch : ~ printf_valid (chars "%1$d %1$c").
-Proof. intros H. apply C11_accept_iff in H. destruct H as [fs H]. vm_compute in H. discriminate. Qed.
+Proof.
+  intros H. apply C11_accept_iff_outside_D15 in H; [|apply no_m_ok; vm_compute; reflexivity].
+  destruct H as [fs H]. vm_compute in H. discriminate.
+Qed.
 Example ex_undefined_flag : fmtc_parse int_max_str_digits (chars "%#d") = Err (EFlagError (chars "%#d") 35).
 Proof. vm_compute. reflexivity. Qed.
 Example ex_lone_percent : fmtc_parse int_max_str_digits (chars "100%! " ++ [1%N] ++ chars "x") = Err (EError (chars "%! ")).
